@@ -206,7 +206,9 @@ import lib.prelude
 import harness.C12 as H
 out = {"docs": [], "kinds": []}
 which = sys.argv[1]
-if which.startswith("doc"):
+if which.startswith("defs"):
+    print(json.dumps(H._parse_def(int(which[4:]))))
+elif which.startswith("doc"):
     from doctrans import parse
     try:
         print(json.dumps(repr(parse.docstring(H.USER_DOCS[int(which[3:])]))))
@@ -222,8 +224,13 @@ def prepare(tier):
     earlier path left behind - a cache, a function attribute - would otherwise be shared by the reference and the run under test)"""
     import json as _json
 
-    env = {"PYTHONHASHSEED": "0", "PATH": "/usr/bin:/bin", "PYTHONDONTWRITEBYTECODE": "1"}
-    ref = {"docs": [], "kinds": []}
+    from lib.chutil import fresh_env
+
+    env = fresh_env()
+    ref = {"docs": [], "kinds": [], "defs": []}
+    for i in range(len(USER_DEFS)):
+        p = subprocess.run([sys.executable, "-c", FRESH_SCRIPT, "defs%d" % i], capture_output=True, text=True, env=env)
+        ref["defs"].append(_json.loads(p.stdout.strip().splitlines()[-1]))
     for i in range(len(USER_DOCS)):
         p = subprocess.run([sys.executable, "-c", FRESH_SCRIPT, "doc%d" % i], capture_output=True, text=True, env=env)
         ref["docs"].append(_json.loads(p.stdout.strip().splitlines()[-1]))
@@ -255,6 +262,34 @@ def _run_kind(k, sid):
     got = parse_kind(art, KINDS7[k])
     got.pop("_internal", None)
     return [art if isinstance(art, str) else ast.dump(art), repr(got)]
+
+
+USER_DEFS = [
+    'class Dataset(object):\n    """"""\n    learning_rate: float = 0.5\n    epochs: int = 3\n',
+    'def train(a, b=2):\n    """"""\n    return a\n',
+    'class Empty(object):\n    """   """\n    momentum: float = 0.9\n',
+    'class NoDoc(object):\n    x: int = 1\n',
+    'def documented(a):\n    """\n    Summary\n\n    :param a: the a\n    """\n    return a\n',
+    'def nodoc(a, *, k=1):\n    return a\n',
+]
+
+
+def _parse_def(i):
+    node = ast.parse(USER_DEFS[i]).body[0]
+    ir = parse.class_(node) if isinstance(node, ast.ClassDef) else parse.function(node)
+    ir = dict(ir)
+    ir.pop("_internal", None)
+    out = emit.class_(ir, class_name="K") if isinstance(node, ast.ClassDef) else emit.function(ir, function_name=node.name, function_type=None)
+    return [repr(ir), ast.dump(out)]
+
+
+def defs_sequence(g, f):
+    """a user definition f parsed (and re-emitted) after another definition g equals f in a fresh interpreter - including definitions
+    whose docstring is present but empty"""
+    g, f = realize((g, f))
+    with untraced():
+        _parse_def(g)
+        return _parse_def(f) == prepared()["defs"][f]
 
 
 def repeat_text(i, n, j):
@@ -365,6 +400,10 @@ def obligations(tier, seed):
     obs.append(Ob(name="after_other", params=[("g", "int"), ("f", "int")], pre=["0 <= g < 7 and 0 <= f < 7"],
                   body="H.after_other(g, f)", witness=(0, 3), kind="F",
                   bounds="every ordered pair (g, f) of the 7 conversions: f after g equals f alone", timeout=200, funcs=FUNCS))
+    obs.append(Ob(name="defs_sequence", params=[("g", "int"), ("f", "int")], pre=["0 <= g < %d and 0 <= f < %d" % (len(USER_DEFS), len(USER_DEFS))],
+                  body="H.defs_sequence(g, f)", witness=(0, 1), kind="F",
+                  bounds="pool of %d user definitions (classes / functions with an empty, blank, absent or ordinary docstring): every ordered pair, "
+                  "the second judged against a fresh-interpreter reference" % len(USER_DEFS), timeout=150, funcs=FUNCS))
     obs.append(Ob(name="repeat_text", params=[("i", "int"), ("n", "int"), ("j", "int")],
                   pre=["0 <= i < %d and 0 <= j < %d" % (len(USER_DOCS), len(USER_DOCS)), "2 <= n <= 3"], body="H.repeat_text(i, n, j)",
                   witness=(0, 2, 1), kind="F",
